@@ -63,9 +63,15 @@ DeepTerms == Plain \cup Deletes \cup {Term("count", 0, 0, "none"), Term("sum", 0
                                       Term("page", 2, 2, "none"), Term("random", 9, 0, "none"), Term("insub", 2, 1, "none")}
              \cup Slices({None, 1}, {None, 3}) \cup Limits({None, 2}, {None, 1})
 
+ConvAlphabet == {St("where", "sa"), St("where", "v100"), St("kw", "v7"), St("order", "n1"), St("order", "n-1"),
+                 St("distinct", ""), St("nodistinct", "")}
+ConvTerms == Plain \cup Aggregates \cup Slices({None, 1}, {None, 2}) \cup Limits({None, 2}, {None, 1})
+
 Group(name) ==
-    CASE name \in Projs ->
+    CASE name \in Projs \ {"p", "day"} ->
             { [proj |-> name, prefix |-> <<>>, alphabet |-> ChainAlphabet, maxlen |-> 2, terms |-> ChainTerms] }
+      [] name \in {"p", "day"} ->      \* converted column types: fewer slices, every aggregate
+            { [proj |-> name, prefix |-> <<>>, alphabet |-> ConvAlphabet, maxlen |-> 2, terms |-> ConvTerms] }
       [] name \in {"deep-ent", "deep-v", "deep-vs"} ->     \* thorough only: three query-to-query methods, then the terminal
             { [proj |-> CASE name = "deep-ent" -> "ent" [] name = "deep-v" -> "v" [] OTHER -> "vs", prefix |-> <<>>,
                alphabet |-> DeepAlphabet, maxlen |-> 3, terms |-> DeepTerms] }
